@@ -134,6 +134,9 @@ def run(ctx):
                           (kv["judge"], r.get("results"), r.get("later"), specs.get(cid, "")[:200]), payload,
                           fingerprint={"clause": clause, "broken": r.get("broken", "?"), "later": r.get("later", "?"),
                                        "lockleft": r.get("lockleft", "?"),
+                                       "lock_owner": ("orphaned:leftover" if r.get("lock") == "1" else
+                                                      "orphaned:death" if ("dead" in r.get("results", "").split(";") or "crash" in r.get("steps", "")
+                                                                           or r.get("killed") == "1") else "alive-or-none"),
                                        "winner_failed_to_compile": "1" if "compile" in r.get("results", "").split(";") else "0",
                                        "stale_version": "1" if "ok1" in r.get("results", "").split(";") + [r.get("later", "")] else "0"})
         if kv["corr"].startswith("skip"):
